@@ -272,6 +272,14 @@ fn aggregate_cases(r: &mut Rng, n: usize, sink: &mut Sink) {
         if !close(s.mass_static.value, cars_mass + loco_mass, 1e-12, 0.0) { fails.push(format!("static mass {} != cars {} + locomotives {}", s.mass_static.value, cars_mass, loco_mass)); }
         let roll: f64 = train.rvs.iter().map(|rv| rv.rolling_ratio.value * (rv.mass_static_base.value + rv.mass_freight.value) * train.n_cars[&rv.car_type] as f64).sum::<f64>() / cars_mass;
         if !close(rp[1], roll, 1e-12, 0.0) { fails.push(format!("rolling coefficient {} != mass-weighted mean {}", rp[1], roll)); }
+        // the other train-level coefficients: per-axle bearing total, mass-weighted Davis-B, summed drag area
+        let nc = |rv: &RailVehicle| train.n_cars[&rv.car_type] as f64;
+        let bearing: f64 = train.rvs.iter().map(|rv| rv.bearing_res_per_axle.value * rv.axle_count as f64 * nc(rv)).sum();
+        if !close(rp[0], bearing, 1e-12, 0.0) { fails.push(format!("bearing resistance {} != per-axle total over all cars {}", rp[0], bearing)); }
+        let davis: f64 = train.rvs.iter().map(|rv| rv.davis_b.value * (rv.mass_static_base.value + rv.mass_freight.value) * nc(rv)).sum::<f64>() / cars_mass;
+        if !close(rp[2], davis, 1e-12, 1e-15) { fails.push(format!("Davis-B coefficient {} != mass-weighted mean {}", rp[2], davis)); }
+        let cda: f64 = train.rvs.iter().map(|rv| rv.cd_area.value * nc(rv)).sum();
+        if !close(rp[3], cda, 1e-12, 0.0) { fails.push(format!("drag area {} != sum over all cars {}", rp[3], cda)); }
         let mut tags = train.tags.clone(); tags.push("result:ok".into());
         sink.put(Case { id: format!("aggregate/{}", k), kind: "aggregate".into(),
             coq: format!("x_aggregate [{}] {} {}", cars, cf(total as f64), cf(loco_mass)), outcome: Outcome::Ok(o), tags,
